@@ -69,7 +69,7 @@ package libp2pwebtransport
 //@ func (t *transport) upgrade
 //@ prop C18
 //@ ensures result1 == nil ==> verified
-//@ modifies ghost.closed(_)
+//@ noframe
 //@ closure 0
 //@ guarantee old(verified) ==> verified
 //@ ensures verified ==> old(verified) || result == nil
